@@ -428,4 +428,84 @@ Section Sound.
       replace (demand ByCoin sc (f0 + fees)) with (demand ByCoin sc f0 + fees) by (unfold demand; cbn [coin_only]; lia).
       cbn [coin_only] in Iout. lia.
   Qed.
+
+  (* ----------------------------------------------------------------------------------------- *)
+  (* with additive fees the required fee is the minimum fee of the resulting builder *)
+  Lemma required_fee_final added : forall m fee,
+    fee_additive min_fee ffi -> required_fee min_fee ffi m added = Ok fee -> min_fee (insert_all added m) = Ok fee.
+  Proof.
+    induction added as [|u r IH]; intros m fee Ha H; unfold required_fee in H; cbn [marginal_fees insert_all fold_left] in *.
+    - destruct (min_fee m) as [f0| | |]; cbn [bind] in H; try discriminate H. inversion H; subst. f_equal. lia.
+    - destruct (min_fee m) as [f0| | |] eqn:E0; cbn [bind] in H; try discriminate H.
+      destruct (ffi m u) as [f| | |] eqn:Ef; cbn [bind] in H; try discriminate H.
+      destruct (marginal_fees ffi (imap_insert u m) r) as [fs| | |] eqn:Er; cbn [bind] in H; try discriminate H.
+      inversion H; subst. apply IH; auto. unfold required_fee. rewrite (Ha _ _ _ Ef _ E0). cbn [bind].
+      rewrite Er. cbn [bind]. f_equal. lia.
+  Qed.
+
+  Theorem sound_current_min_fee strat cs offered sc st' :
+    fee_additive min_fee ffi ->
+    scenario_wf offered sc -> distinct_outpoints offered sc ->
+    add_inputs_from min_fee ffi current strat cs offered sc = (st', Done tt) ->
+    exists fee, min_fee (st_inputs st') = Ok fee /\ covers_coin sc (st_inputs st') fee.
+  Proof.
+    intros Ha Hwf Hd H.
+    pose proof (sound_current _ _ _ _ _ Hwf Hd H) as [_ [_ [fee [Hf [Hc _]]]]].
+    exists fee. split; auto.
+    (* the input map is the initial one with the added UTxOs inserted *)
+    assert (Hnd_pre : NoDup (ids (sc_pre sc))) by (eapply NoDup_app_r; eauto).
+    assert (Hin : st_inputs st' = insert_all (added_utxos offered (st_trace st')) (imap_of_list (sc_pre sc))).
+    { clear Hf Hc. unfold add_inputs_from in H.
+      destruct (initial_state min_fee sc) as [st0 x0] eqn:E0. ob H. destruct a.
+      destruct (sound_setup _ _ _ Hwf Hd E0) as [it0 [ot0 [f0 [Hst0 [_ [_ [_ I0]]]]]]]. cbn zeta in *.
+      pose proof (proj1 Hwf) as Woff.
+      destruct (prestep ffi current offered st0) as [avail [st1 x1]] eqn:Epre. unfold prestep in Epre.
+      ob H. destruct a.
+      assert (Hpre : (forall i u, nth_error avail i = Some u -> nth_error offered i = Some u) /\
+                     Inv ffi offered (imap_of_list (sc_pre sc)) it0 ot0 st1 /\ Bk (seq 0 (length avail)) st1).
+      { destruct ((coin (st_out st0) <=? coin (st_in st0)) && is_nil (st_inputs st0)).
+        - destruct (rev offered) as [|u r] eqn:Er; [inversion Epre; subst; discriminate|].
+          destruct (rev_last_nth _ _ _ Er) as [Hu Hrl].
+          injection Epre as Ha' Hadd. subst avail. cbn [v_prestep_fee current] in Hadd.
+          destruct (add_input_ok _ _ Woff _ _ _ _ _ _ _ I0 Hu Hadd) as [I1 [Ht _]].
+          conj; auto.
+          + intros i x. apply removelast_prefix.
+          + constructor.
+            * apply seq_NoDup.
+            * rewrite Ht. subst st0. cbn. repeat constructor. intros [].
+            * intros i Hi. rewrite Ht. subst st0. cbn. intros [<-|[]]. apply in_seq in Hi.
+              assert (length (removelast offered) = (length offered - 1)%nat).
+              { rewrite Hrl, rev_length. rewrite <- (rev_length offered), Er. cbn. lia. }
+              lia.
+        - inversion Epre; subst. conj; auto. constructor.
+          + apply seq_NoDup.
+          + cbn. constructor.
+          + intros i _ []. }
+      destruct Hpre as [Havail [I1 B1]].
+      pose proof (sset_seq 0 (length avail)) as S1.
+      unfold run_strategy in H. destruct strat.
+      - destruct (outputs_have_assets sc); [discriminate H|].
+        unfold drop_locals in H. destruct (lf_by ffi ByCoin avail (seq 0 (length avail)) st1) as [st2 r2] eqn:X2.
+        destruct r2 as [aidx| | | |]; cbn [ob] in H; try discriminate H. inversion H; subst st2; clear H.
+        destruct (lf_by_ok _ _ Woff _ _ _ _ Havail _ _ _ _ _ I1 B1 X2) as [I' _]. apply I'.
+      - destruct (outputs_have_assets sc); [discriminate H|].
+        destruct (ri_by ffi current ByCoin true avail (sc_outputs sc) (seq 0 (length avail)) cs st1) as [st2 x2] eqn:X2.
+        ob H. destruct a as [aset cs2].
+        destruct (ri_by_ok _ _ Woff _ _ _ _ Havail _ _ _ _ _ _ _ _ _ I1 B1 S1 X2) as [I2 [B2 [S2 _]]].
+        destruct (phase3_ok _ _ Woff _ _ _ _ Havail _ _ _ _ _ I2 B2 H) as [I' _]. apply I'.
+      - destruct (lf_multi ffi (asset_selectors (st_out st1)) avail (seq 0 (length avail)) st1) as [st2 x2] eqn:X2.
+        ob H. unfold drop_locals in H.
+        destruct (lf_by ffi ByCoin avail a st2) as [st3 r3] eqn:X3.
+        destruct r3 as [aidx| | | |]; cbn [ob] in H; try discriminate H. inversion H; subst st3; clear H.
+        destruct (lf_multi_ok _ _ Woff _ _ _ _ Havail _ _ _ _ _ I1 B1 X2) as [I2 [B2 _]].
+        destruct (lf_by_ok _ _ Woff _ _ _ _ Havail _ _ _ _ _ I2 B2 X3) as [I' _]. apply I'.
+      - destruct (ri_multi ffi current (asset_selectors (st_out st1)) avail (sc_outputs sc) (seq 0 (length avail)) cs st1) as [st2 x2] eqn:X2.
+        ob H. destruct a as [aset cs2].
+        destruct (ri_by ffi current ByCoin false avail (sc_outputs sc) aset cs2 st2) as [st3 x3] eqn:X3.
+        ob H. destruct a as [aset3 cs3].
+        destruct (ri_multi_ok _ _ Woff _ _ _ _ Havail _ _ _ _ _ _ _ _ I1 B1 S1 X2) as [I2 [B2 [S2 _]]].
+        destruct (ri_by_ok _ _ Woff _ _ _ _ Havail _ _ _ _ _ _ _ _ _ I2 B2 S2 X3) as [I3 [B3 _]].
+        destruct (phase3_ok _ _ Woff _ _ _ _ Havail _ _ _ _ _ I3 B3 H) as [I' _]. apply I'. }
+    rewrite Hin. apply required_fee_final; auto.
+  Qed.
 End Sound.
